@@ -73,7 +73,7 @@ _state = {"registered": False, "dir": None, "templates": {}, "n": 0, "hints": {}
 
 _rec = {"on": False, "depth": 0, "events": None, "hook": None}
 
-_MUTATING = ["put_file", "put_bytes", "put_file_non_atomic", "put_bytes_non_atomic", "append_file", "append_bytes",
+_MUTATING = ["put_file", "put_bytes", "append_file", "append_bytes",
              "mkdir", "rmdir", "delete", "delete_tree", "rename", "move", "copy", "copy_to", "copy_tree",
              "copy_tree_to_transport", "delete_multi", "move_multi", "copy_multi", "mkdir_multi", "put_file_multi",
              "create_prefix", "symlink", "hardlink"]
@@ -154,6 +154,32 @@ def _register():
     for n in _MUTATING:
         if hasattr(TransportDecorator, n):
             setattr(RecTransport, n, mk(n))
+
+    def put_bytes_non_atomic(self, relpath, raw, mode=None, create_parent_dir=False, dir_mode=None):
+        """A non-atomic put is open(O_TRUNC) followed by write(): on the file system it is (at least) three
+        crash points -- truncated, partly written, written.  (TransportDecorator's inherited default would
+        silently turn it into an ATOMIC put_file and hide exactly that.)"""
+        dec = self._decorated
+        if not _rec["on"] or _rec["depth"] > 0:
+            return dec.put_bytes_non_atomic(relpath, raw, mode, create_parent_dir, dir_mode)
+        rel = _rel(self, relpath)
+        stages = [("truncate", b"")]
+        if len(raw) > 1:
+            stages.append(("partial-write", raw[:len(raw) // 2]))
+        stages.append(("put_bytes_non_atomic", raw))
+        for kind, data in stages:
+            _rec["depth"] += 1
+            try:
+                dec.put_bytes_non_atomic(relpath, data, mode, create_parent_dir, dir_mode)
+            finally:
+                _rec["depth"] -= 1
+            _emit(kind, rel)
+
+    def put_file_non_atomic(self, relpath, f, mode=None, create_parent_dir=False, dir_mode=None):
+        return self.put_bytes_non_atomic(relpath, f.read(), mode, create_parent_dir, dir_mode)
+
+    RecTransport.put_bytes_non_atomic = put_bytes_non_atomic
+    RecTransport.put_file_non_atomic = put_file_non_atomic
 
     def open_write_stream(self, relpath, mode=None):
         _rec["depth"] += 1
@@ -437,7 +463,7 @@ def _project(ids, ev):
     if a.startswith("repository/lock/"):
         return None
     if a == "branch/last-revision":
-        return [Tag("tip"), ev.get("tip", -1)]
+        return [Tag("tip"), ev.get("tip", -1)] if k in ("put_bytes", "put_file") else [Tag("other"), k, a]
     if not a.startswith("repository/"):
         return None
     if a == "repository/pack-names" and k == "put_file":
